@@ -210,6 +210,37 @@ def oracle(ctx, res):
             viol("BitwiseFPEPRP accepts a wrong key/message length", f"key bits {kl}, message bits {ml}", {})
         except ValueError:
             pass
+    # the length contracts hold whatever the object was used for BEFORE: a valid call, then the SAME integer values presented
+    # with one bit more / less (a wider message, a key with a leading zero bit) to the same object, and back
+    for (ml, kl) in ((2, 16), (16, 64), (9, 24)):
+        prp = BitwiseFPEPRP(message_bit_length=ml, key_bit_length=kl)
+        kv, mv = rng.getrandbits(kl - 1) | 1, rng.getrandbits(ml - 1) | 1
+        try:
+            good = prp(mkbits(kv, kl), mkbits(mv, ml))
+        except Exception as e:
+            viol("BitwiseFPEPRP raised on a valid input", f"{type(e).__name__}: key bits {kl}, message bits {ml}", {}); continue
+        for (k2, m2) in ((kl, ml + 1), (kl + 1, ml), (kl + 8, ml), (kl, ml + 8)):
+            try:
+                out = prp(mkbits(kv, k2), mkbits(mv, m2))
+                viol("BitwiseFPEPRP accepts a wrong key/message length right after a valid call with the same values",
+                     f"declared key/message bits {kl}/{ml}; after prp(k, m) the call with {k2}/{m2} bits of the same integers returned {len(out)} bits",
+                     {"key_bits": kl, "message_bits": ml, "then_key_bits": k2, "then_message_bits": m2, "key": kv, "message": mv})
+            except ValueError:
+                pass
+            again = prp(mkbits(kv, kl), mkbits(mv, ml))
+            if (int(again), len(again)) != (int(good), len(good)):
+                viol("BitwiseFPEPRP is not deterministic across calls", f"key bits {kl}, message bits {ml}", {})
+        res.evaluations += 1
+    lrs = HmacLubyRackoffPRP(message_length=4, key_length=24)
+    k0, m0 = rb(rng, 24), rb(rng, 4)
+    g0 = lrs(k0, m0)
+    for (k2, m2) in ((k0, m0 + b"\0"), (k0, b"\0" + m0), (b"\0" + k0, m0), (k0 + b"\0", m0)):
+        try:
+            lrs(k2, m2); viol("Luby-Rackoff accepts a wrong key/message length right after a valid call", f"{len(k2)}/{len(m2)} bytes", {})
+        except ValueError:
+            pass
+        if lrs(k0, m0) != g0:
+            viol("Luby-Rackoff is not deterministic across calls", "", {})
     # Luby-Rackoff: all 2-byte messages, sampled longer ones
     lr = HmacLubyRackoffPRP(message_length=2, key_length=24)
     k = rb(rng, 24)
